@@ -314,6 +314,25 @@ def helpers_correspondence(ctx: Ctx, hp, g):
                 if tx[0] != "ok" or not (t - 1 <= tx[1] <= t):
                     ctx.violate("helpers.inverse.x96", f"sqrt_price_x96_to_tick(base_unit_price_to_sqrt_price_x96(tick_to_base_unit_price({t}))) = {tx[1]} "
                                 f"(decimals {d0},{d1}, token0_quote={q0})", rp)
+        if price is not pr[1] and t < MAX_TICK:
+            # the converse direction (price -> tick -> price) for a price that is NOT on a tick: the pool's sqrt price lies in
+            # [sqrtAt t, sqrtAt (t+1)), so both routes must answer within one tick of t, and the price of the answered tick is within
+            # one tick (a factor 1.0001) of the price asked
+            ctx.count("converse_inverse_checked")
+            for route, r in (("log", bt), ("x96", tx if bx[0] == "ok" and bx[1] > 0 else ("skip", None))):
+                if r[0] == "skip":
+                    continue
+                if r[0] != "ok" or abs(r[1] - t) > 1:
+                    ctx.violate(f"helpers.inverse.converse.{route}", f"price {price} (sqrt price {sx} in [sqrtAt {t}, sqrtAt {t + 1})) -> tick {r[1]} by the {route} route "
+                                f"(decimals {d0},{d1}, token0_quote={q0})", dict(rp, sx=str(sx)))
+                    continue
+                back = _exc_name(hp.tick_to_base_unit_price, max(MIN_TICK, min(MAX_TICK, r[1])), d0, d1, q0)
+                if back[0] == "ok" and price > 0:
+                    ratio = Fraction(back[1]) / Fraction(price)
+                    lim = Fraction(10001, 10000) * (1 + Fraction(1, 10 ** 9))
+                    if not (1 / lim <= ratio <= lim):
+                        ctx.violate(f"helpers.inverse.converse.{route}.price", f"tick_to_base_unit_price(price_to_tick({price})) = {back[1]}: more than one tick away "
+                                    f"(ratio {float(ratio):.9f}; decimals {d0},{d1}, token0_quote={q0})", dict(rp, sx=str(sx)))
         if price is pr[1]:
             if bt[0] != "ok" or abs(bt[1] - t) > 1:
                 ctx.violate("helpers.inverse", f"base_unit_price_to_tick(tick_to_base_unit_price({t})) = {bt[1]} (decimals {d0},{d1}, token0_quote={q0})", rp)
